@@ -208,6 +208,13 @@ def build_cases(rng, tier):
             e = path([step(ax, tst, abbr=False)])
             for ctx in range(1, nsflat["n"] + 1):
                 cases.append((nd, ctx, 1, 1, e, {}))
+    # characters are Unicode characters (XPath 1.0 section 3.6 / 4.2), also outside the Basic Multilingual Plane
+    S1, S2 = lit("a\U00010400b"), lit("\U00010400\U0001F600")
+    for e in [fn("string-length", S1), fn("string-length", S2), fn("substring", S1, num(2), num(1)), fn("substring", S1, num(3)), fn("substring", S2, num(2)),
+              fn("translate", S1, lit("\U00010400"), lit("x")), fn("translate", lit("abc"), lit("b"), lit("\U00010400")), fn("string-length", fn("substring", S1, num(1), num(2))),
+              fn("concat", S1, S2), fn("contains", S1, lit("\U00010400")), fn("substring-after", S1, lit("\U00010400")), fn("starts-with", S2, lit("\U00010400")),
+              fn("normalize-space", lit(" \U00010400  b ")), bin_("=", S1, S1)]:
+        cases.append((nd, 1, 1, 1, e, {}))
     for la in ["en", "EN", "en-US", "fr", "de", "e", ""]:
         for ctx in range(1, nsflat["n"] + 1):
             cases.append((nd, ctx, 1, 1, fn("lang", lit(la)), {}))
@@ -381,6 +388,10 @@ def classify(ev):
     if "res" in ev and ev["res"].get("t") == "num" and ev["res"]["v"] == {"k": "fin", "neg": False, "m": 0}:
         if ev["expr"].get("op") == "fn" and ev["expr"]["name"] == "round":
             return "roundNegativeZero"
+    # a character outside the Basic Multilingual Plane in an operand of a function that counts or indexes characters
+    if any(n.get("op") == "str" and any(cp > 0xFFFF for cp in n["v"]) for n in nodes) and \
+       any(n.get("op") == "fn" and n["name"] in ("string-length", "substring", "translate") for n in nodes):
+        return "supplementaryCharacterCountedAsTwo"
     return None
 
 
